@@ -118,7 +118,7 @@ impl Future for PendFut {
 }
 
 pub fn is_async_op(n: &str) -> bool {
-    n == "fjoin" || n == "fyield" || n == "pend" || n == "acq_await"
+    n == "fjoin" || n == "fyield" || n == "pend" || n == "acq_await" || n == "fpoll"
 }
 
 fn wslot_index(c: &Ctx, name: &str) -> usize {
@@ -142,6 +142,26 @@ fn exec_async<'a>(ctx: &'a Arc<Ss<Ctx>>, toks: &'a [String]) -> Pin<Box<dyn Futu
                         Ok(()) => "ok".into(),
                         Err(_) => "cancelled".into(),
                     },
+                }
+            }
+            "fpoll" => {
+                // one `JoinHandle::poll` with the current task's waker; Ready drops the handle, Pending puts it back
+                let k = num(1);
+                let h = lock_std(&c.fut.handles).get_mut(k).and_then(|h| h.take());
+                match h {
+                    None => "nohandle".into(),
+                    Some(h) => {
+                        let mut h = ManuallyDrop::into_inner(h);
+                        let r = std::future::poll_fn(|cx| Poll::Ready(Pin::new(&mut h).poll(cx))).await;
+                        match r {
+                            Poll::Ready(Ok(())) => "ready:ok".into(),
+                            Poll::Ready(Err(_)) => "ready:cancelled".into(),
+                            Poll::Pending => {
+                                lock_std(&c.fut.handles)[k] = Some(ManuallyDrop::new(h));
+                                "pending".into()
+                            }
+                        }
+                    }
                 }
             }
             "fyield" => {
@@ -368,6 +388,10 @@ pub fn exec_fut_op(ctx: &Arc<Ss<Ctx>>, st: &mut TaskSt, op: &Op, pc: usize) -> O
         "block_on" => block_on_op(ctx, &op.args),
         "fjoin_block" => {
             let toks = vec!["fjoin".to_string(), op.arg(0).to_string()];
+            block_on_op(ctx, &toks)
+        }
+        "fpoll" => {
+            let toks = vec!["fpoll".to_string(), op.arg(0).to_string()];
             block_on_op(ctx, &toks)
         }
         "fjoin" | "fyield" | "pend" | "acq_await" => {
